@@ -69,6 +69,7 @@ def run(ctx: Ctx, rep: Report) -> None:
     from . import circuit_extra
     circuit_extra.append_spec(ctx, rep)
     circuit_extra.insert_spec(ctx, rep)
+    circuit_extra.straighten_shadow_spec(ctx, rep)
 
 
 # ---------------------------------------------------------------------------
